@@ -188,7 +188,83 @@ func verif_C02_convert(from int) {
 	VerifReach("convert")
 }
 
+// Range consequences of the named functions, bit-precise (overflow and
+// underflow of exp included through the documented range steps of math.Exp):
+// for every finite argument the result is not NaN and lies in the range of the
+// mathematical function. ty 0: Real64, 1: Float64, 2: Float32, 3: Real32.
+func verifRangeScalar(ty int, name string) (Scalar, float64) {
+	switch ty {
+	case 0:
+		x := VerifFinite64(name)
+		return NewReal64(x), x
+	case 1:
+		x := VerifFinite64(name)
+		return NewFloat64(x), x
+	case 2:
+		x := VerifFinite32(name)
+		return NewFloat32(x), float64(x)
+	default:
+		x := VerifFinite32(name)
+		return NewReal32(x), float64(x)
+	}
+}
+
+func verif_C02_range(ty, op int) {
+	a, x := verifRangeScalar(ty, "a")
+	r, _ := verifRangeScalar(ty, "r")
+	t, _ := verifRangeScalar(ty, "t")
+	switch op {
+	case 0:
+		r.Sigmoid(a, t)
+		v := r.GetFloat64()
+		VerifAssert("Sigmoid:not-NaN", v == v)
+		VerifAssert("Sigmoid:in-[0,1]", v >= 0 && v <= 1)
+		if x >= 0 {
+			VerifAssert("Sigmoid:>=1/2-for-x>=0", v >= 0.5)
+		} else {
+			VerifAssert("Sigmoid:<=1/2-for-x<0", v <= 0.5)
+		}
+	case 1:
+		b, y := verifRangeScalar(ty, "b")
+		r.LogAdd(a, b, t)
+		v := r.GetFloat64()
+		m := x
+		if y > m {
+			m = y
+		}
+		VerifAssert("LogAdd:not-NaN", v == v)
+		VerifAssert("LogAdd:>=max", v >= m)
+		if m <= 1000 && m >= -1000 {
+			VerifAssert("LogAdd:<=max+log2", v <= m+0.7)
+		}
+	case 2:
+		r.Log1pExp(a)
+		v := r.GetFloat64()
+		VerifAssert("Log1pExp:not-NaN", v == v)
+		VerifAssert("Log1pExp:>=0", v >= 0)
+		if x > 18 {
+			VerifAssert("Log1pExp:>=x", v >= x)
+		}
+		if x <= 0 {
+			VerifAssert("Log1pExp:<=log2-for-x<=0", v <= 0.7)
+		}
+	case 3:
+		r.Tanh(a)
+		v := r.GetFloat64()
+		VerifAssert("Tanh:in-[-1,1]", v >= -1 && v <= 1)
+	case 4:
+		b, y := verifRangeScalar(ty, "b")
+		VerifAssume(x > y)
+		r.LogSub(a, b, t)
+		v := r.GetFloat64()
+		VerifAssert("LogSub:not-NaN", v == v)
+		VerifAssert("LogSub:<=a", v <= x)
+	}
+	VerifReach("range")
+}
+
 func init() {
+	VerifRegister("verif_C02_range", func(a []int) { verif_C02_range(a[0], a[1]) })
 	VerifRegister("verif_C02_mixed", func(a []int) { verif_C02_mixed(a[0], a[1], a[2]) })
 	VerifRegister("verif_C02_int", func(a []int) { verif_C02_int(a[0]) })
 	VerifRegister("verif_C02_convert", func(a []int) { verif_C02_convert(a[0]) })
